@@ -1,7 +1,7 @@
 (* C02 — the JSON text parser accepts exactly the documented language, with standard meaning. *)
 From Coq Require Import List NArith ZArith Bool.
 Import ListNotations.
-From JB Require Import Constants Bytes Utf8 Num Value JsonText TextProofs Render SerdeProofs TextRoundtrip.
+From JB Require Import Constants Bytes Utf8 Num Value JsonText TextProofs Render SerdeProofs TextRoundtrip JsonGrammar JsonGrammarProofs.
 Open Scope N_scope.
 
 (* every byte string is answered with a value or an error, never a panic: the first pass over a string literal
@@ -47,3 +47,169 @@ Theorem C02_negative_integers_exact : forall z rest, (- two63 <= z < 0)%Z -> end
   parse_json_number (dec_Z z ++ rest) = Ok (VNum (NInt z), rest).
 Proof. exact parse_negint_token. Qed.
 Print Assumptions C02_negative_integers_exact.
+
+(* ================================================================== the documented language, exactly (JsonGrammar.v) *)
+(* jtext t v (JsonGrammar.v): t is a text of the documented language and v the value it denotes.  The grammar is a
+   transcription of RFC 8259 plus the relaxations: ws also form feed and the escaped forms \n \r \t \x0C; strings with raw
+   control characters, \u{XXXX} (exactly four hex digits), unpaired surrogate escapes kept as text; integers exact in
+   u64 / (with a minus sign) i64, other numbers the nearest double (infinity beyond the range); last duplicate key wins.
+   Productions named DEV_ / commented DEV are behaviours of the crate that are not in the property text:
+   a \u escape right after an unpaired high surrogate escape is kept as text too; bracketed surrogates lose their braces. *)
+
+(* COMPLETENESS: every text of the documented language (in particular every RFC 8259 document, of any nesting depth)
+   is accepted and yields the value it denotes *)
+Theorem C02_every_documented_text_is_accepted_with_its_meaning : forall t v, jtext t v -> parse_value t = Ok v.
+Proof. exact grammar_complete. Qed.
+Print Assumptions C02_every_documented_text_is_accepted_with_its_meaning.
+
+(* SOUNDNESS: nothing outside the documented language is accepted, and an accepted text never gets another value *)
+Theorem C02_nothing_else_is_accepted : forall bs v, parse_value bs = Ok v -> jtext bs v.
+Proof. exact grammar_sound. Qed.
+Print Assumptions C02_nothing_else_is_accepted.
+
+(* hence every other byte string is rejected with an error (never a panic, never a value) *)
+Theorem C02_every_other_byte_string_is_an_error : forall bs, (forall v, ~ jtext bs v) -> exists e, parse_value bs = Err e.
+Proof.
+  intros bs H. destruct (parse_value bs) as [v|e|] eqn:P.
+  - exfalso. apply (H v). apply grammar_sound. exact P.
+  - exists e. reflexivity.
+  - exfalso. exact (parse_value_total bs P).
+Qed.
+Print Assumptions C02_every_other_byte_string_is_an_error.
+
+(* the pieces: string literals and number tokens, both directions, in any context *)
+Theorem C02_string_literals_exact : forall bs s rest,
+  parse_json_string bs = Ok (s, rest) <-> exists b, bs = b ++ 34 :: rest /\ jstring_body b s /\ utf8_valid s = true.
+Proof.
+  intros bs s rest. split; [apply string_sound|]. intros (b & -> & Hb & Hu). apply string_complete; assumption.
+Qed.
+Theorem C02_number_tokens_accepted : forall t n rest, jnumber t n -> ends_number rest -> parse_json_number (t ++ rest) = Ok (VNum n, rest).
+Proof. exact number_complete. Qed.
+Theorem C02_number_tokens_only : forall bs v rest, parse_json_number bs = Ok (v, rest) -> exists t n, bs = t ++ rest /\ v = VNum n /\ jnumber t n.
+Proof. exact number_sound. Qed.
+Print Assumptions C02_string_literals_exact.
+Print Assumptions C02_number_tokens_only.
+
+(* RFC 8259 alone (rfc_text, JsonGrammar.v: the grammar with every relaxation removed; the text of each string UTF-8) is
+   part of the documented language, so every RFC 8259 document is accepted and yields the value it denotes *)
+Theorem C02_rfc8259_is_part_of_the_documented_language : forall t v, rfc_text t v -> jtext t v.
+Proof. exact rfc_text_jtext. Qed.
+Theorem C02_every_rfc8259_document_is_accepted_with_its_meaning : forall t v, rfc_text t v -> parse_value t = Ok v.
+Proof. exact rfc_complete. Qed.
+Print Assumptions C02_every_rfc8259_document_is_accepted_with_its_meaning.
+(* [1, "a"] *)
+Example C02_example_rfc_document : rfc_text [91; 49; 44; 32; 34; 97; 34; 93] (VArr [VNum (NUInt 1); VStr [97]]).
+Proof.
+  apply (RElem [] [91; 49; 44; 32; 34; 97; 34; 93] _ []); [constructor| |constructor].
+  apply (RV_array [49; 44; 32; 34; 97; 34]). apply (REs_cons [49] _ [32; 34; 97; 34]).
+  - apply (RElem [] [49] _ []); [constructor| |constructor]. apply RV_number.
+    apply (Number false [49] [] [] [] 0); [apply Int_nonzero; [reflexivity|discriminate|constructor]|constructor|constructor].
+  - apply REs_one. apply (RElem [32] [34; 97; 34] _ []); [apply RWS_char; [tauto|constructor]| |constructor].
+    apply RV_string. apply (RStr [97] [97]); [apply RB_raw; [discriminate|discriminate|discriminate|constructor]|reflexivity].
+Qed.
+
+(* RFC 8259 requires the text to be UTF-8, the grammar requires the denoted string to be UTF-8: for the bytes between
+   the quotes of any string literal of the grammar the two conditions coincide (escapes are ASCII in the text and whole
+   UTF-8 sequences in the meaning), so the grammar does not reject any RFC 8259 string and accepts no ill-formed text *)
+Theorem C02_string_is_utf8_iff_its_text_is : forall b s, jstring_body b s -> utf8_valid b = utf8_valid s.
+Proof. exact body_utf8. Qed.
+Print Assumptions C02_string_is_utf8_iff_its_text_is.
+
+(* "last duplicate key wins": looking a name up in the object denoted by a member list gives the value of the last
+   member with that name *)
+Theorem C02_last_duplicate_key_wins : forall ms k, assoc_lookup k (assoc_of_list ms) = last_binding k ms.
+Proof. exact object_last_duplicate_wins. Qed.
+Print Assumptions C02_last_duplicate_key_wins.
+
+(* ---- the grammar is inhabited by the spellings the printer never emits: derivations built by hand ---- *)
+(* between the quotes: the eight two-character escapes (quote, backslash, /, b, f, n, r, t), then \u00e9, \u{00E9}, the pair \uD83D\ude00,
+   \uDC00 (unpaired low), the raw control character 0x01, \uD800 (unpaired high, last in the string) *)
+Definition ex_body : list N :=
+  [92; 34; 92; 92; 92; 47; 92; 98; 92; 102; 92; 110; 92; 114; 92; 116; 92; 117; 48; 48; 101; 57; 92; 117; 123; 48; 48; 69; 57; 125;
+   92; 117; 68; 56; 51; 68; 92; 117; 100; 101; 48; 48; 92; 117; 68; 67; 48; 48; 1; 92; 117; 68; 56; 48; 48].
+Definition ex_body_meaning : list N :=
+  [34; 92; 47; 8; 12; 10; 13; 9; 195; 169; 195; 169; 240; 159; 152; 128; 92; 117; 68; 67; 48; 48; 1; 92; 117; 68; 56; 48; 48].
+Example C02_example_string_derivation : jstring_body ex_body ex_body_meaning.
+Proof.
+  unfold ex_body, ex_body_meaning.
+  do 8 (apply B_short; [reflexivity|]).
+  apply (B_unicode [92; 117; 48; 48; 101; 57] [48; 48; 101; 57] 233); [apply U_plain; reflexivity|reflexivity|reflexivity|].
+  apply (B_unicode [92; 117; 123; 48; 48; 69; 57; 125] [48; 48; 69; 57] 233); [apply (U_braced [48; 48; 69; 57]); reflexivity|reflexivity|reflexivity|].
+  apply (B_pair [92; 117; 68; 56; 51; 68] [68; 56; 51; 68] 55357 [92; 117; 100; 101; 48; 48] [100; 101; 48; 48] 56832);
+    [apply U_plain; reflexivity|reflexivity|apply U_plain; reflexivity|reflexivity|].
+  apply (B_lone_low [92; 117; 68; 67; 48; 48] [68; 67; 48; 48] 56320); [apply U_plain; reflexivity|reflexivity|].
+  apply B_raw; [discriminate|discriminate|].
+  apply (B_lone_high [92; 117; 68; 56; 48; 48] [68; 56; 48; 48] 55296 [] []); [apply U_plain; reflexivity|reflexivity|reflexivity|].
+  apply B_end.
+Qed.
+Example C02_example_string_parsed : parse_json_string (ex_body ++ [34; 58]) = Ok (ex_body_meaning, [58]).
+Proof. vm_compute. reflexivity. Qed.
+
+(* 1.5e3 and 1E-2 are doubles, -0 is the signed integer 0, 2^64 no longer fits and becomes a double, 1e400 is +infinity *)
+Example C02_example_number_derivations :
+  jnumber [49; 46; 53; 101; 51] (NFloat 4654311885213007872) /\ jnumber [45; 48] (NInt 0) /\
+  jnumber [49; 69; 45; 50] (NFloat 4576918229304087675) /\
+  jnumber [49; 56; 52; 52; 54; 55; 52; 52; 48; 55; 51; 55; 48; 57; 53; 53; 49; 54; 49; 54] (NFloat 4895412794951729152) /\
+  jnumber [49; 101; 52; 48; 48] (NFloat 9218868437227405312).
+Proof.
+  assert (D : forall l, forallb is_digit l = true -> digits l) by (intros l H; apply Forall_forall; apply forallb_forall; exact H).
+  repeat split.
+  - apply (Number false [49] [46; 53] [53] [101; 51] 3);
+      [apply Int_nonzero; [reflexivity|discriminate|constructor]|apply Frac_some; [discriminate|apply D; reflexivity]|
+       apply (Exp_some 101 [] false [51]); [tauto|constructor|discriminate|apply D; reflexivity]].
+  - apply (Number true [48] [] [] [] 0); constructor.
+  - apply (Number false [49] [] [] [69; 45; 50] (-2));
+      [apply Int_nonzero; [reflexivity|discriminate|constructor]|constructor|
+       apply (Exp_some 69 [45] true [50]); [tauto|constructor|discriminate|apply D; reflexivity]].
+  - apply (Number false [49; 56; 52; 52; 54; 55; 52; 52; 48; 55; 51; 55; 48; 57; 53; 53; 49; 54; 49; 54] [] [] [] 0);
+      [apply Int_nonzero; [reflexivity|discriminate|apply D; reflexivity]|constructor|constructor].
+  - apply (Number false [49] [] [] [101; 52; 48; 48] 400);
+      [apply Int_nonzero; [reflexivity|discriminate|constructor]|constructor|
+       apply (Exp_some 101 [] false [52; 48; 48]); [tauto|constructor|discriminate|apply D; reflexivity]].
+Qed.
+
+(* {"a":1,\x0C"a":[<tab>] <form feed>}: the four characters \x0C before a token, a duplicate key (the last one wins), a tab inside an empty
+   array, a space and a raw form feed before the closing brace: derivation by hand, and the parser's answer *)
+Definition ex_small : list N := [123; 34; 97; 34; 58; 49; 44; 92; 120; 48; 67; 34; 97; 34; 58; 91; 9; 93; 32; 12; 125].
+Example C02_example_document_derivation : jtext ex_small (VObj [([97], VArr [])]).
+Proof.
+  assert (Ka : jstring [34; 97; 34] [97]).
+  { apply (Str [97] [97]); [apply B_raw; [discriminate|discriminate|apply B_end]|reflexivity]. }
+  apply (Elem [] ex_small _ []); [constructor| |constructor].
+  change (VObj [([97], VArr [])]) with (VObj (assoc_of_list [([97], VNum (NUInt 1)); ([97], VArr [])])).
+  apply (V_object [34; 97; 34; 58; 49; 44; 92; 120; 48; 67; 34; 97; 34; 58; 91; 9; 93; 32; 12]).
+  apply (Ms_cons [34; 97; 34] [97] [49] (VNum (NUInt 1)) [92; 120; 48; 67; 34; 97; 34; 58; 91; 9; 93; 32; 12]).
+  - apply (Key [] [34; 97; 34] [97] []); [constructor|exact Ka|constructor].
+  - apply (Elem [] [49] _ []); [constructor| |constructor]. apply V_number.
+    apply (Number false [49] [] [] [] 0); [apply Int_nonzero; [reflexivity|discriminate|constructor]|constructor|constructor].
+  - apply (Ms_one [92; 120; 48; 67; 34; 97; 34] [97] [91; 9; 93; 32; 12]).
+    + apply (Key [92; 120; 48; 67] [34; 97; 34] [97] []); [apply WS_escaped_form_feed; constructor|exact Ka|constructor].
+    + apply (Elem [] [91; 9; 93] _ [32; 12]); [constructor| |apply WS_rfc; [tauto|apply WS_form_feed; constructor]].
+      apply (V_empty_array [9]). apply WS_rfc; [tauto|constructor].
+Qed.
+Example C02_example_document_parsed : parse_value ex_small = Ok (VObj [([97], VArr [])]).
+Proof. vm_compute. reflexivity. Qed.
+
+(* a larger text with every feature at once: escaped and raw relaxed whitespace between tokens, every escape kind, a
+   surrogate pair, \u{00E9}, fraction / exponent numbers, -0, integers beyond u64 and at the i64 limit, duplicate keys,
+   and the deviation: the literal "\uD800\u0041" denotes those twelve characters.  It parses (vm_compute), hence (soundness) it is derivable *)
+Definition ex_large : list N :=
+  [92; 110; 123; 32; 34; 107; 92; 117; 48; 48; 101; 57; 34; 32; 58; 9; 91; 49; 46; 53; 101; 51; 32; 44; 32; 45; 48; 44; 49; 69; 45; 50; 44; 49; 56; 52; 52; 54; 55; 52; 52; 48; 55; 51; 55; 48; 57; 53; 53; 49; 54; 49; 54; 44; 92; 120; 48; 67; 45; 57; 50; 50; 51; 51; 55; 50; 48; 51; 54; 56; 53; 52; 55; 55; 53; 56; 48; 56; 93; 12; 44; 32; 34; 97; 34; 58; 49; 44; 13; 10; 32; 34]
+  ++ ex_body ++
+  [34; 32; 92; 116; 32; 58; 32; 91; 93; 32; 44; 32; 34; 97; 34; 32; 58; 32; 34; 92; 117; 68; 56; 48; 48; 92; 117; 48; 48; 52; 49; 34; 32; 125; 92; 114; 32].
+Definition ex_large_value : value :=
+  VObj [(ex_body_meaning, VArr []);
+        ([97], VStr [92; 117; 68; 56; 48; 48; 92; 117; 48; 48; 52; 49]);
+        ([107; 195; 169], VArr [VNum (NFloat 4654311885213007872); VNum (NInt 0); VNum (NFloat 4576918229304087675);
+                                VNum (NFloat 4895412794951729152); VNum (NInt (-9223372036854775808))])].
+Example C02_example_large_parsed : parse_value ex_large = Ok ex_large_value.
+Proof. vm_compute. reflexivity. Qed.
+Example C02_example_large_derivable : jtext ex_large ex_large_value.
+Proof. apply C02_nothing_else_is_accepted. exact C02_example_large_parsed. Qed.
+
+(* not in the language, hence rejected: \u{1F600} (five digits in the brackets), 01, 1., .5, +1, [1,], escaped whitespace \f *)
+Example C02_example_rejections :
+  map parse_value [[34; 92; 117; 123; 49; 70; 54; 48; 48; 125; 34]; [48; 49]; [49; 46]; [46; 53]; [43; 49]; [91; 49; 44; 93]; [92; 102; 49]]
+  = [Err EOther; Err EOther; Err EOther; Err EOther; Err EOther; Err EOther; Err EOther].
+Proof. vm_compute. reflexivity. Qed.
+Print Assumptions C02_example_large_derivable.
